@@ -407,8 +407,8 @@ def coq_toks(toks):
 
 def gen_cases(rnd, tier):
     """Yields (env, formula, tag)."""
-    n_gen = 420 if tier == "quick" else 6000
-    n_special = 60 if tier == "quick" else 700
+    n_gen = 420 if tier == "quick" else 4000
+    n_special = 60 if tier == "quick" else 500
     env = None
     for i in range(n_gen):
         if i % 60 == 0:
@@ -448,7 +448,10 @@ def run(tier):
         texts = {}
         for which in ("tree", "dag"):
             texts[which] = search_one(chk, env, f, rnd, n_interp, which, stats)
-        if tier == "thorough" and texts["dag"] and rnd.random() < 0.15:
+        # (cvc5 refuses to DECLARE symbols starting with . or @ - reserved for solver use by the standard -
+        #  so formulas with such free symbols, which the name generator produces on purpose, are not sent)
+        if tier == "thorough" and texts["dag"] and rnd.random() < 0.15 and \
+                not any(v.symbol_name()[:1] in ".@" for v in f.get_free_variables()):
             op = solver_opinion(texts["dag"])
             solver_checked += 1
             mine_ok = True
